@@ -429,15 +429,19 @@ def relocate (h : Holder) (base : Nat) : Holder × Except Err Unit × Nat :=
     | (st, .error e) => ({ h with secs := st.secs, entries := st.entries }, .error e, 0)
     | (st, .ok ()) =>
       let h1 := { h with secs := st.secs, entries := st.entries }
-      if addrTabIsLast h1 then
-        match h1.addrTab with
-        | none => (h1, .ok (), 0)
-        | some id =>
-          let reserved := ((findSec h1.secs id).map (·.vsize)).getD 0
-          let size := st.count * 8
+      -- (REPAIRED, C04-1) the assigned slots become the buffer of the address table wherever the section is;
+      -- the virtual size shrinks (and a reduction is reported) only when it is the last section by order
+      match h1.addrTab with
+      | none => (h1, .ok (), 0)
+      | some id =>
+        let reserved := ((findSec h1.secs id).map (·.vsize)).getD 0
+        let size := st.count * 8
+        if addrTabIsLast h1 then
           let secs := modifySec h1.secs id (fun s => { s with data := (st.table ++ zeros size).take size, vsize := size })
           ({ h1 with secs := secs }, .ok (), (reserved + U64 - size) % U64)
-      else (h1, .ok (), 0)
+        else
+          let secs := modifySec h1.secs id (fun s => { s with data := (st.table ++ zeros size).take size })
+          ({ h1 with secs := secs }, .ok (), 0)
 
 /-- `JitRuntime::_add` (REPAIRED, fixes/C10-4.patch): flatten; (`resolve_cross_section_fixups`: nothing to do in this model);
     estimate = `code_size()`; allocate a span of that size at address `base`; `relocate_to_base(base)`;
